@@ -423,6 +423,23 @@ func vfC13Run(c vfC13Case, ctx *vfCtx) *vfViolation {
 					s = s.WithDocumentIDs(op.IDs...)
 				}
 				r, err := s.Execute()
+				// the same search object executed again answers the same (nothing of the first run may leak
+				// into the second: scratch buffers, sorted copies, pooled filters)
+				if err == nil && (i+np)%2 == 0 {
+					r2, err2 := s.Execute()
+					if err2 != nil {
+						return nil, fmt.Errorf("second Execute of the same search: %w", err2)
+					}
+					a, b := vfHitsOf(r), vfHitsOf(r2)
+					if len(a) != len(b) {
+						return nil, fmt.Errorf("the same search object returns %d results on its first Execute and %d on its second", len(a), len(b))
+					}
+					for j := range a {
+						if a[j].Score != b[j].Score {
+							return nil, fmt.Errorf("the same search object returns score %v at rank %d on its first Execute and %v on its second", a[j].Score, j, b[j].Score)
+						}
+					}
+				}
 				return vfHitsOf(r), err
 			}
 			if op.ThrOf > 0 {
